@@ -126,3 +126,7 @@ Definition parse_row (fields : list string) (freq_ok : bool) : result crow :=
 
 Definition crow_eqb (x y : crow) : bool :=
   dna_eqb (c_codon x) (c_codon y) && aa_eqb (c_aa x) (c_aa y) && (c_rank x =? c_rank y).
+
+(* codon_table_loader.load_codon_table_rows: every line of the file is a row - list(map(_parse_codon_table_row, csv.reader(fh))) *)
+Definition load_table (lines : list (list string * bool)) : result (list crow) :=
+  mapM (fun l => parse_row (fst l) (snd l)) lines.
